@@ -1,5 +1,6 @@
 """Concrete-syntax styles (C16): token-wise rewriting of the canonical rendering of an AST.
 The set of styles is enumerated by TLC (GenCorpus.tla, StyleDims/Styles2); this module only applies one."""
+import re
 import alverif as A
 
 DEFAULT = {"case": "lower", "sep": "space", "comma": ", ", "brack": "tight", "indent": "", "trail": "",
@@ -111,7 +112,8 @@ def apply(ast, st):
         elif k == "star":
             s = {"tight": "*", "spaced": " * ", "uneven": "*", "wide": " " * 15 + "*" + " " * 15}[st["brack"]]
         out.append(s)
-    text = st["indent"].replace("tab", "\t").replace("wide", " " * 120) + "".join(out) + st["trail"].replace("tab", "\t").replace("wide", " " * 105)
+    trail = re.sub(r"<([0-9a-f]{2})>", lambda m: chr(int(m.group(1), 16)), st["trail"].replace("tab", "\t").replace("wide", " " * 105))
+    text = st["indent"].replace("tab", "\t").replace("wide", " " * 120) + "".join(out) + trail
     eol = {"none": "", "lf": "\n", "crlf": "\r\n"}[st["eol"]]
     return text + eol
 
